@@ -21,6 +21,7 @@ import (
 	"bytes"
 	"fmt"
 	"io"
+	"math"
 	"os"
 	"path/filepath"
 	"regexp"
@@ -295,6 +296,9 @@ func reportOptions(p *profile.Profile, numLabelUnits map[string]string, cfg conf
 
 	if cfg.DivideBy == 0 {
 		return nil, fmt.Errorf("zero divisor specified")
+	}
+	if r := 1 / cfg.DivideBy; math.IsInf(r, 0) || math.IsNaN(r) {
+		return nil, fmt.Errorf("divisor %v out of range", cfg.DivideBy)
 	}
 
 	var filters []string
